@@ -37,6 +37,8 @@ structure Ext where
   members : List (String × List String)
   values : List (String × List String)
   newDirs : List (String × List ExtArg × List String)
+  /-- `type Zed implements Pet & Named { … }`: the interfaces an object type DEFINED by the document declares (by name) -/
+  newIfaces : List (String × List String) := []
   deriving Repr, Inhabited
 
 def placeholder (n : String) : Obj :=
@@ -211,5 +213,40 @@ def extend (cfg : Cfg) (ext : Ext) (s : Schema) (h : Heap) : Heap × Schema :=
       (s.types.filter fun e => isProtected e.1) ++ reached
   (h3, { types := types, dirs := dirs, query := q, mutation := m, subscription := su,
          dres := if cfg.extSchemaDres then s.dres else none })
+
+
+/-- the ORDER of the `types` dict of `extend_schema`'s result. `extend_schema` ends in
+    `Schema(types=[extend_type(t) for t in schema.types.values()] + [the types the document defines], query_type=…, …)`, and
+    `Schema.__init__` registers, after the specified scalars, the types in the order a DEPTH-FIRST walk from that list (then
+    the root operation types) first meets them (`_register_types`: a type, then its union members / interfaces, then field by
+    field the field's type and its argument types). `T = r.types` is the registry `extend` computed (same entries). -/
+def extendOrder (s : Schema) (newNames : List String) (h : Heap) (r : Schema) : List (String × Addr) :=
+  let starts := (s.types.filterMap fun e => lookup r.types e.1) ++ newNames.filterMap (lookup r.types) ++ rootAddrs r
+  let walked := (buildTypeMap h (reachFuel h starts) starts).filter fun e => !isProtected e.1
+  let ordered := walked.filterMap fun e => (lookup r.types e.1).map fun a => (e.1, a)
+  ((r.types.filter fun e => isProtected e.1) ++ ordered ++ r.types).foldl
+    (fun reg e => if (lookup reg e.1).isSome then reg else reg ++ [e]) []
+
+/-- the `interfaces` of the object types the document DEFINES (`_build_object_type`: `interfaces=[self.build_type(i) …]`, then
+    `_extend_object_type` re-points them): resolved BY NAME through the registry of the result, like every other reference
+    (`healedRefs`: the object registered under the name). Only names of `newNames` are written: objects the call allocated. -/
+def setNewIfaces (reg : List (String × Addr)) (newNames : List String) : Heap → List (String × List String) → Heap
+  | h, [] => h
+  | h, (n, ms) :: rest =>
+    if newNames.contains n then
+      match lookup reg n with
+      | some na =>
+        match h.readType na with
+        | some t => setNewIfaces reg newNames (h.write na (.type { t with ifaces := healedRefs reg (ms.map fun m => ⟨m, 0⟩) })) rest
+        | none => setNewIfaces reg newNames h rest
+      | none => setNewIfaces reg newNames h rest
+    else setNewIfaces reg newNames h rest
+
+/-- `extend_schema` as the code performs it: `extend`, the interfaces of the object types the document defines, and the `types`
+    dict in the order of `Schema.__init__` (same entries, same directives and roots) -/
+def extendO (cfg : Cfg) (ext : Ext) (s : Schema) (h : Heap) : Heap × Schema :=
+  let r := extend cfg ext s h
+  let h' := setNewIfaces r.2.types (ext.newTypes.map (·.1)) r.1 ext.newIfaces
+  (h', { r.2 with types := extendOrder s (ext.newTypes.map (·.1)) h' r.2 })
 
 end PyGql.Heap
